@@ -15,6 +15,7 @@ import (
 	"os"
 	"strings"
 	"sync"
+	"sync/atomic"
 	"time"
 
 	"github.com/anthdm/hollywood/actor"
@@ -68,6 +69,7 @@ type rig struct {
 	pids   map[string]*actor.PID
 	copies map[string]*actor.PID
 	flush  chan int
+	fcount atomic.Int64      // everything the flush subscriber has seen except markers
 	names  map[string]string // pid id -> model name
 }
 
@@ -135,6 +137,9 @@ func (r *rig) recorder(name string) actor.Producer {
 					r.flush <- m.N
 				}
 			default:
+				if name == "#flush" {
+					r.fcount.Add(1)
+				}
 				if ev, ok := r.abstract(m); ok && name != "#flush" {
 					r.mu.Lock()
 					r.logs[name] = append(r.logs[name], ev)
@@ -289,6 +294,23 @@ func runCase(c *Case) (seen map[string][]Ev, problem string) {
 	}
 	if !r.quiesce(&nmark, live, 3) {
 		return r.snapshot(), "events keep flowing: the engine does not quiesce"
+	}
+	// nothing is sent any more: further rounds must not see new events (a marker forwarded to a stopped
+	// subscriber may produce one more dead letter, which ends its subscription; a chain never ends)
+	busy := 0
+	for i := 0; i < 6; i++ {
+		before := r.fcount.Load()
+		if !r.quiesce(&nmark, live, 1) {
+			return r.snapshot(), "events keep flowing: the engine does not quiesce"
+		}
+		if r.fcount.Load() > before {
+			busy++
+		} else {
+			break
+		}
+	}
+	if busy == 6 {
+		return r.snapshot(), "a finite number of sends keeps producing events: new events in each of 6 consecutive idle rounds"
 	}
 	return r.snapshot(), ""
 }
